@@ -208,3 +208,79 @@ func rebuiltCheck(c *vecCase, e *cz.Embedding, arg any, r *resT) {
 		}
 	}
 }
+
+// describable: the kinds whose self-description is known to rebuild (the typed / generic variants are C09's).
+func describable(s *cz.Schema) bool {
+	switch s.Kind {
+	case "int", "float", "string", "bool":
+		return true
+	case "list":
+		return !s.Typed && describable(s.Items)
+	case "map":
+		return !s.Typed && (s.Keys.Kind == "string" || s.Keys.Kind == "int") && describable(s.Keys) && describable(s.Vals)
+	}
+	return false
+}
+
+// rebuildAny rebuilds an arbitrary describable schema from its own description: it is described as the
+// property "v" of a wrapper object (NewScopeSchema(wrapper).SelfSerialize), the description is turned back into
+// a scope (schema.UnserializeScope) and the property's type is taken out of it.
+func rebuildAny(s *cz.Schema, e *cz.Embedding) (schema.Type, error) {
+	b, err := cz.Build(s, e)
+	if err != nil {
+		return nil, err
+	}
+	wrapper := schema.NewObjectSchema(nextID(), map[string]*schema.PropertySchema{
+		"v": schema.NewPropertySchema(b.Type, nil, true, nil, nil, nil, nil, nil),
+	})
+	var rebuilt *schema.ScopeSchema
+	var rerr error
+	if pi := guard(func() {
+		var desc any
+		desc, rerr = schema.NewScopeSchema(wrapper).SelfSerialize()
+		if rerr == nil {
+			rebuilt, rerr = schema.UnserializeScope(desc)
+		}
+	}); pi != nil {
+		return nil, fmt.Errorf("describe/rebuild panics: %s", pi.Msg)
+	}
+	if rerr != nil {
+		return nil, rerr
+	}
+	p, ok := rebuilt.RootObject().Properties()["v"]
+	if !ok {
+		return nil, fmt.Errorf("rebuilt wrapper lost its property")
+	}
+	return p.Type(), nil
+}
+
+// unitVariants: a schema with units must behave the same when its units definition did not pass NewUnits -
+// written as a struct literal, or received as a description.
+func unitVariants(c *vecCase, e *cz.Embedding, arg any, r *resT) {
+	if !c.S.HasUnits() {
+		return
+	}
+	run := func(t schema.Type, how string) {
+		o := callUntyped(t, c.Op, arg)
+		r.Runs++
+		if o.Panic != nil {
+			r.miss(map[string]any{"op": c.Op, "entry": how, "kind_at_fault": c.S.Kind, "arg_class": c.Arg.Coarse(), "divergence": "panic", "frame": o.Panic.Frame},
+				map[string]any{"panic": o.Panic.Msg, "emb": e.Name, "go_arg": fmt.Sprintf("%#v", arg), "decodable": c.Arg.Decodable()})
+			return
+		}
+		if div, d, _ := judge(o, c.Op, c.Exp, e, c.S); div != "" {
+			d["emb"], d["go_arg"] = e.Name, fmt.Sprintf("%#v", arg)
+			r.miss(map[string]any{"op": c.Op, "entry": how, "kind_at_fault": c.S.Kind, "arg_class": c.Arg.Class(), "divergence": div}, d)
+		}
+	}
+	if lit, err := cz.BuildLiteralUnits(c.S, e); err == nil {
+		run(lit.Type, "literal_units")
+	}
+	if describable(c.S) {
+		if t, err := rebuildAny(c.S, e); err == nil {
+			run(t, "rebuilt")
+		} else {
+			r.Skipped++
+		}
+	}
+}
